@@ -108,6 +108,15 @@ def c01_effect_only_if_granted (o : StepObs) : Bool :=
     if o.res.disclosesAnything || !stateEq o.post o.pre then granted o.caller (actionOf op) (nameOf op)
     else true
 
+/-- whichever secrets a call changed - not only the one it names - the caller holds the call's
+action on exactly those names -/
+def c01_changes_only_granted (o : StepObs) : Bool :=
+  match o.op with
+  | .list => true
+  | op =>
+    o.pre.secrets.toList.all (fun (m, s) => optSecEq o.post.secrets[m]? (some s) || granted o.caller (actionOf op) m) &&
+    o.post.secrets.toList.all (fun (m, s) => optSecEq o.pre.secrets[m]? (some s) || granted o.caller (actionOf op) m)
+
 def c01_list_exact (o : StepObs) : Bool :=
   match o.op, o.res with
   | .list, .listR items =>
@@ -282,6 +291,7 @@ def corr_entries (o : StepObs) : Bool := o.entries == (specStep o).2.2
 def clauses : List (String × String × (StepObs → Bool)) :=
   [ ("C01", "denied_noeffect", c01_denied_noeffect),
     ("C01", "effect_only_if_granted", c01_effect_only_if_granted),
+    ("C01", "changes_only_granted", c01_changes_only_granted),
     ("C01", "list_exact", c01_list_exact),
     ("C02", "inv", c02_inv),
     ("C02", "failed_noop", c02_failed_noop),
